@@ -191,6 +191,19 @@ func dhKeyWire(version int, sender, receiver uint32, value []byte) []byte {
 
 var groupP = unhexS("FFFFFFFFFFFFFFFFC90FDAA22168C234C4C6628B80DC1CD129024E088A67CC74020BBEA63B139B22514A08798E3404DDEF9519B3CD3A431B302B0A6DF25F14374FE1356D6D51C245E485B576625E7EC6F44C42E9A637ED6B0BFF5CB6F406B7EDEE386BFB5A899FA5AE9F24117C4B1FE649286651ECE45B3DC2007CB8A163BF0598DA48361C55D39A69163FA8FD24CF5F83655D23DCA3AD961C62F356208552BB9ED529077096966D670C354E4ABC9804F1746C08CA237327FFFFFFFFFFFFFFFF")
 
+// a readable name for the boundary values used as D-H public values (anything else: its hexadecimal form)
+func dhValueName(v []byte) string {
+	if len(v) == 0 {
+		return "(an MPI of length 0, read as 0)"
+	}
+	for d := -2; d <= 1; d++ {
+		if bytes.Equal(v, addSmall(groupP, d)) {
+			return fmt.Sprintf("%s (%x...%x, %d bytes)", []string{"p-2", "p-1", "p", "p+1"}[d+2], v[:4], v[len(v)-4:], len(v))
+		}
+	}
+	return fmt.Sprintf("%x", v)
+}
+
 func unhexS(s string) []byte {
 	b := make([]byte, len(s)/2)
 	fmt.Sscanf(s, "%X", &b)
@@ -225,6 +238,7 @@ func (g *gen) akeScenario(w *world, recorded [][]byte) [][]byte {
 	target := g.r.Intn(4) // which AKE message (commit, key, reveal, sig)
 	g.dist[fmt.Sprintf("ake:kind%d", kind)]++
 	var tamper func(k int, m []byte) [][]byte
+	var rejectedFirst []byte // kind 6: the out-of-range value that was delivered (and refused) ahead of the genuine DH-Key message
 	switch kind {
 	case 0: // honest
 	case 1: // flip a bit anywhere in the decoded message
@@ -268,22 +282,24 @@ func (g *gen) akeScenario(w *world, recorded [][]byte) [][]byte {
 	case 6: // degenerate DH value in place of the DH-Key message
 		tamper = func(k int, m []byte) [][]byte {
 			if k == 1 {
+				// (the DH-Key message travels from a to b: b, who sent the DH-Commit, is the one awaiting it)
 				sa, sb := otr3.VerifSnapshot(n.a.c), otr3.VerifSnapshot(n.b.c)
 				vals := [][]byte{{}, {1}, addSmall(groupP, -1), groupP, addSmall(groupP, 1), {0}, addSmall(groupP, -2)}
 				v := vals[g.r.Intn(len(vals))]
-				bad := dhKeyWire(version, sb.OurTag, sa.OurTag, v)
+				bad := dhKeyWire(version, sa.OurTag, sb.OurTag, v)
 				ok := bytes.Equal(v, addSmall(groupP, -2))
-				before := otr3.VerifSnapshot(n.a.c).AkeState
-				_, ts, _, _ := w.recv(n.a, bad)
-				after := otr3.VerifSnapshot(n.a.c).AkeState
+				before := otr3.VerifSnapshot(n.b.c).AkeState
+				_, ts, _, _ := w.recv(n.b, bad)
+				after := otr3.VerifSnapshot(n.b.c).AkeState
 				olog.ok("C01")
 				if !ok && (after != before || len(ts) > 0 && !isErrorReply(ts[0])) {
 					olog.viol("C01", "degenerate-dh-value-accepted", fmt.Sprintf("DH-Key with value %x moved the initiator from state %d to %d", v, before, after))
 				}
 				if ok {
-					n.push(n.a, ts)
+					n.push(n.b, ts)
 					return nil
 				}
+				rejectedFirst = v
 				return [][]byte{m}
 			}
 			return [][]byte{m}
@@ -316,6 +332,15 @@ func (g *gen) akeScenario(w *world, recorded [][]byte) [][]byte {
 			olog.viol("C01", "honest-exchange-fails", "an untampered exchange did not complete")
 		}
 		return n.log
+	}
+	if rejectedFirst != nil {
+		// a refused message is no step of the exchange: the genuine DH-Key message that follows completes it
+		olog.ok("C01")
+		if !n.a.c.IsEncrypted() || !n.b.c.IsEncrypted() {
+			olog.viol("C01", "honest-exchange-fails", fmt.Sprintf("OTRv%d: the initiator refused a DH-Key message carrying the out-of-range value %s, then received the genuine DH-Key message of its peer: the untampered rest of the exchange did not complete (initiator encrypted: %v, peer encrypted: %v)", version, dhValueName(rejectedFirst), n.b.c.IsEncrypted(), n.a.c.IsEncrypted()))
+		} else if n.a.c.GetSSID() != n.b.c.GetSSID() {
+			olog.viol("C01", "ssid-differs", fmt.Sprintf("OTRv%d: after a refused DH-Key message carrying the out-of-range value %s and the genuine one both sides are encrypted but report session ids %x and %x", version, dhValueName(rejectedFirst), n.b.c.GetSSID(), n.a.c.GetSSID()))
+		}
 	}
 	return nil
 }
@@ -374,6 +399,133 @@ func (g *gen) rekeyScenario(w *world) {
 	g.c01probe(w, n.a, n.b)
 }
 
+
+// An out-of-range DH-Key message ahead of the genuine one. The initiator (awaiting the DH-Key message, in a
+// first exchange or re-keying inside a session, either version) receives one to three DH-Key messages
+// carrying 0, 1, p-1, p, p+1 or an empty value, with the instance tags of the exchange: each must be refused
+// and must leave no trace, so that the GENUINE DH-Key message that follows completes the exchange with
+// both sides agreeing - or, if an in-range value of the attacker's comes next, the initiator at least
+// never derives the session from a refused value (the secrets 0, 1 and p-1, known to everybody).
+func (g *gen) rejectedDHKeyScenario(w *world, idx int) {
+	version := 2 + idx%2
+	established := (idx/2)%2 == 1
+	n := g.newAkeNet(w, version)
+	fwd := func(to *party, ms []otr3.ValidMessage) (out []otr3.ValidMessage) {
+		for _, m := range ms {
+			if w.dead {
+				return
+			}
+			_, ts, _, _ := w.recv(to, m)
+			out = append(out, ts...)
+		}
+		return
+	}
+	q := []byte("?OTRv2?")
+	if version == 3 {
+		q = []byte("?OTRv3?")
+	}
+	var v, o *party // v starts the exchange (and awaits the DH-Key message), o is its genuine peer
+	var commit []otr3.ValidMessage
+	var oldSSID [8]byte
+	if established {
+		n.run(nil)
+		if !n.a.c.IsEncrypted() || !n.b.c.IsEncrypted() || w.dead {
+			return
+		}
+		w.tick(3600)
+		v, o = n.a, n.b
+		if g.r.Intn(2) == 0 {
+			v, o = n.b, n.a
+		}
+		oldSSID = v.c.GetSSID()
+		commit = fwd(v, []otr3.ValidMessage{q})
+	} else {
+		v, o = n.b, n.a
+		commit = fwd(v, []otr3.ValidMessage{n.qab[0]}) // o's query message
+		n.qab = nil
+	}
+	dhkey := fwd(o, commit)
+	if w.dead || len(commit) == 0 || len(dhkey) == 0 {
+		return
+	}
+	state := "in a first exchange"
+	if established {
+		state = "re-keying inside a session"
+	}
+	g.dist[fmt.Sprintf("ake:rejected-dh-key-first:OTRv%d:established=%v", version, established)]++
+	pBig := new(big.Int).SetBytes(groupP)
+	degenerate := map[string]string{}
+	for name, s := range map[string]*big.Int{"0": big.NewInt(0), "1": big.NewInt(1), "p-1": new(big.Int).Sub(pBig, big.NewInt(1))} {
+		degenerate[string(craftedAkeKeys(s).ssid)] = name
+	}
+	vals := [][]byte{{}, {0}, {1}, addSmall(groupP, -1), groupP, addSmall(groupP, 1)}
+	g.r.Shuffle(len(vals), func(i, j int) { vals[i], vals[j] = vals[j], vals[i] })
+	vals = vals[:1+g.r.Intn(3)]
+	so, sv := otr3.VerifSnapshot(o.c), otr3.VerifSnapshot(v.c)
+	var sent []string
+	for _, val := range vals {
+		sent = append(sent, dhValueName(val))
+		before := otr3.VerifSnapString(v.c)
+		_, ts, err, pan := w.recv(v, dhKeyWire(version, so.OurTag, sv.OurTag, val))
+		if pan {
+			olog.viol("C13", "receive-panics", fmt.Sprintf("Receive panicked on a DH-Key message carrying the value %x", val))
+			return
+		}
+		olog.ok("C01")
+		if after := otr3.VerifSnapString(v.c); err == nil || after != before || len(ts) > 1 || len(ts) == 1 && !isErrorReply(ts[0]) {
+			olog.viol("C01", "degenerate-dh-value-accepted", fmt.Sprintf("OTRv%d, initiator %s: a DH-Key message carrying the out-of-range value %s was not simply refused (err=%v, %d messages to send, state before %q, after %q)", version, state, dhValueName(val), err, len(ts), before, after))
+			return
+		}
+		if g.r.Intn(2) == 0 {
+			fwd(o, ts) // the error message, if any, reaches the peer
+		}
+		g.c01check(w, n.all, "after a refused out-of-range DH-Key message")
+	}
+	what := fmt.Sprintf("OTRv%d, initiator %s: after DH-Key messages carrying the out-of-range values %v (each refused)", version, state, sent)
+	degenerateSSID := func(when string) bool {
+		olog.ok("C01")
+		sn := otr3.VerifSnapshot(v.c)
+		ssid := v.c.GetSSID()
+		for _, id := range [][]byte{sn.AkeSSID, ssid[:]} {
+			if name, bad := degenerate[string(id)]; bad && len(id) == 8 {
+				olog.viol("C01", "degenerate-dh-value-accepted", fmt.Sprintf("%s and %s the initiator derives the session id %x, the one of the secret s = %s: the exchange runs on a refused value and its secret is known to everybody", what, when, id, name))
+				return true
+			}
+		}
+		return false
+	}
+	if g.r.Intn(4) == 0 {
+		// the attacker's own in-range value comes next (it wins: the genuine one is then ignored, the
+		// exchange cannot complete) - but not a refused value
+		val := g.bytesN(192)
+		val[0] &= 0x7f
+		fwd(v, []otr3.ValidMessage{dhKeyWire(version, so.OurTag, sv.OurTag, val)})
+		degenerateSSID(fmt.Sprintf("an in-range DH-Key message of the attacker's (value %x...)", val[:8]))
+		g.c01check(w, n.all, what+" and an in-range one of the attacker's")
+		g.c01probe(w, n.a, n.b)
+		return
+	}
+	reveal := fwd(v, dhkey)
+	degenerateSSID("the genuine DH-Key message of the peer")
+	g.c01check(w, n.all, what+" and the genuine one")
+	sig := fwd(o, reveal)
+	g.c01check(w, n.all, what+", the genuine one and the Reveal Signature message")
+	rest := fwd(v, sig)
+	fwd(o, rest)
+	g.c01check(w, n.all, what+" and the genuine rest of the exchange")
+	olog.ok("C01")
+	if w.dead {
+		return
+	}
+	if !v.c.IsEncrypted() || !o.c.IsEncrypted() || established && (v.c.GetSSID() == oldSSID || o.c.GetSSID() == oldSSID) {
+		olog.viol("C01", "honest-exchange-fails", fmt.Sprintf("%s the genuine DH-Key message and the untampered rest of the exchange did not bring up the new session (the initiator answered the DH-Key message with %d messages, the peer the Reveal Signature message with %d; initiator encrypted: %v, peer encrypted: %v, session ids %x and %x)", what, len(reveal), len(sig), v.c.IsEncrypted(), o.c.IsEncrypted(), v.c.GetSSID(), o.c.GetSSID()))
+		return
+	}
+	if v.c.GetSSID() != o.c.GetSSID() {
+		olog.viol("C01", "ssid-differs", fmt.Sprintf("%s and the genuine exchange both sides are encrypted but report session ids %x and %x", what, v.c.GetSSID(), o.c.GetSSID()))
+	}
+	g.c01probe(w, v, o)
+}
 
 // the wire form of a long-term public key (the private key's serialisation without its last MPI)
 func pubWire(keyIdx int) []byte {
@@ -973,6 +1125,13 @@ func init() {
 			if i%12 == 4 {
 				g.craftedInitiatorScenario(w, i/12)
 				continue
+			}
+			if i%12 == 8 {
+				// (an additional scenario with a random stream of its own: the streams of the others stay as they were)
+				saved := g.r
+				g.r = rand.New(rand.NewSource(seed*1000003 + int64(i)))
+				g.rejectedDHKeyScenario(w, i/12)
+				g.r = saved
 			}
 			if rec := g.akeScenario(w, recorded); rec != nil && len(rec) >= 4 {
 				recorded = rec
